@@ -9,22 +9,27 @@ from props import c13_util as U
 PROP = "C13"
 LEVEL = "proof"
 GEN_UNITS = []
-COQ_TARGETS = ["Props/C13.vo", "Alg/C13Harness.vo", "Model/Harness.vo"]
+COQ_TARGETS = ["Props/C13.vo", "Alg/C13Harness.vo", "Alg/C13Config.vo", "Alg/C13Vec.vo", "Model/Harness.vo"]
 THEOREM_FILES = ["Props/C13.v"]
 COQ_IMPORTS = ("From Coq Require Import List ZArith Bool QArith Qcanon.\n"
-               "From PV Require Import Base.Index Np.Array Model.Sparse Model.Harness Alg.C13Samplers Alg.C13Solver Alg.C13Harness.\n")
+               "From PV Require Import Base.Index Np.Array Model.Sparse Model.Harness Alg.C13Samplers Alg.C13Solver Alg.C13Config Alg.C13Harness.\n")
 RULE = ("samplers: dense / sparse integer tensors with 2..12 cells (empty, one nonzero, some, nearly full, full), every sampler "
         "kind, counts 0..6, numpy's draws captured (and in a separate stream forced to 0.0 / 1-2^-53) and replayed through the "
         "model; solves: SGD/Adam/Adagrad on 2x2..3x3x2 problems with rates from 1e-3 to 30 (failing epochs), max_fails 0..2, "
         "max_iters 0..5, finite and infinite lower bounds, estimates captured at every epoch boundary; reuse: 2-3 solves on one "
-        "object vs fresh objects under the same seeds; non-trivial = more than one cell and at least one sample / epoch")
+        "object vs fresh objects under the same seeds; the fixed regression inputs of the repaired findings A-35/A-36/A-37/A-48/C13-S2; "
+        "config: every row of the GCPSampler (kind x request) table on dense / sparse tensors with sizes on both sides of the "
+        "1e3 / 1e5 / 1e6 thresholds, counts read back from the sampler object; lbfgsb: what is handed to / returned by "
+        "scipy.optimize.fmin_l_bfgs_b captured; non-trivial = more than one cell and at least one sample / epoch")
 EXPLANATION = ("Theorems (Alg/C13Samplers.v, C13Solver.v, C13Steps.v) are about state machines whose random draws, objective "
                "estimates and update steps are inputs; the correspondence captures exactly those inputs from a real pyttb run "
                "(numpy.random and pyttb.gcp.optimizers.estimate are wrapped inside the harness process only) and replays them. "
-               "Each sampler / solve is checked twice: '<op>' = pyttb agrees with the faithful model, '<op>_prop' = pyttb's own "
-               "output satisfies what C13 states (mismatches there are the genuine defects listed in findings.d/C13.jsonl).")
-CORRESPONDENCE_ONLY = ["Adam / Adagrad update arithmetic (only the final max(lower_bound, .) is a theorem; the numerics are exercised by the solve runs)",
-                       "GCPSampler default-count rules", "LBFGSB wrapper (scipy oracle): objective <= initial and bounds checked on sampled runs"]
+               "Each sampler / solve is checked twice: '<op>' = pyttb agrees with the model, '<op>_prop' = pyttb's own "
+               "output satisfies what C13 states.  A single behaviour is accepted everywhere except inside the trigger region of "
+               "the open finding C13-S1 (short zero supply), where the faithful and the repaired stratified sampler are both accepted.")
+CORRESPONDENCE_ONLY = ["Adam / Adagrad update arithmetic (only the final max(lower_bound, .) and reset_state are theorems; the numerics are exercised by the solve runs)",
+                       "scipy.optimize.fmin_l_bfgs_b itself (oracle; its contract 'never worse than the start, result inside the bounds' is checked on sampled runs)",
+                       "GCPSampler default counts / LBFGSB wrapper: theorems are about hand models (Alg/C13Config.v) tied by read-back / capture correspondence, not by translation"]
 ASSUMPTIONS = ["numpy draws are multiples of 2^-53 in [0,1); the float product u*d is taken exactly (its rounding is not modelled)",
                "objective estimates are compared by their exact float values; NaN estimates are outside the model (total order)",
                "scipy.optimize.fmin_l_bfgs_b never returns a point with a higher objective than the start (oracle contract)"]
@@ -104,6 +109,25 @@ def gen_cases(rng, tier):
         a = {"opt": opt, "probs": probs, "rate": rng.choice([0.01, 0.125, 2.0]), "decay": 0.5, "max_fails": 1,
              "epoch_iters": 2, "max_iters": rng.randint(1, 3), "tol": None}
         cases.append(Case("reuse", a, True))
+    # ---- fixed regression inputs: the witnesses of the repaired findings (a returning defect is a VIOLATION)
+    wp = U.rand_witness_problem()
+    a35 = dict(wp); a35.update({"opt": "sgd", "rate": 0.01, "decay": 0.1, "max_fails": 1, "epoch_iters": 2, "max_iters": 3, "tol": None})
+    cases.append(Case("solve", a35, True)); cases.append(Case("solve_trace", dict(a35), True))
+    for kind in ("adam", "adagrad", "sgd"):
+        cases.append(Case("reuse", {"opt": kind, "probs": [dict(wp), dict(wp)], "rate": 0.125, "decay": 0.5, "max_fails": 1,
+                                    "epoch_iters": 2, "max_iters": 2, "tol": None}, True))
+        big_p = U.rand_problem(rng, (3, 2, 2))
+        cases.append(Case("reuse", {"opt": kind, "probs": [dict(wp), big_p, dict(wp)], "rate": 0.125, "decay": 0.5, "max_fails": 1,
+                                    "epoch_iters": 2, "max_iters": 2, "tol": None}, True))
+    for force in (None, "zero"):
+        for n in (1, 2):
+            a = {"shape": [2, 3], "data": [1, 2, 3, 4, 5, 6], "n": n, "seed": 0, "force": force}
+            cases.append(Case("uniform", a, True)); cases.append(Case("uniform_prop", dict(a), True))
+    a = {"shape": [2, 2], "subs": [[0, 0]], "vals": [1], "cn": 0, "cz": 2, "seed": 3, "force": None, "kind": "one"}
+    for op in ("semistrat", "semistrat_prop"):
+        cases.append(Case(op, dict(a), True))
+    # ---- GCPSampler configuration table (counts read back from the object)
+    cases += U.config_cases(rng, big)
     return cases
 
 
@@ -123,6 +147,8 @@ def run_impl(c):
             o = U.run_reuse(a)
         elif c.op == "lbfgsb":
             o = U.run_lbfgsb(a)
+        elif c.op == "config":
+            o = U.run_config(a)
         else:
             raise ValueError(c.op)
     except Exception as ex:
@@ -152,6 +178,8 @@ def coq_check(c, o):
         if c.op.startswith("solve") and "Infinite gradient" in o.get("msg", ""):
             return None            # the solver's own overflow guard fired: no result to check
         return "false"
+    if c.op == "config":
+        return U.config_check(a, o)
     if c.op in ("uniform", "uniform_prop"):
         shp, n = a["shape"], a["n"]
         size = math.prod(shp)
@@ -159,13 +187,11 @@ def coq_check(c, o):
         if not _ints(o["vals"]):
             return "false"
         ws = _gqlist(o["weights"])
-        if c.op == "uniform":
-            return (f"((zmat_eqb (zuniform_subs {gnlist(shp)} {gzmat(o['draws'])}) {gzmat(o['subs'])} && "
-                    f"vec_eqb (zuniform_vals {X} {gzmat(o['draws'])}) {gzlist(o['vals'])}) || "
-                    f"(zmat_eqb (fx_uniform_subs {gnlist(shp)} {gzmat(o['draws'])}) {gzmat(o['subs'])} && "
-                    f"vec_eqb (fx_uniform_vals {X} {gzmat(o['draws'])}) {gzlist(o['vals'])})) && "
-                    f"weights_close {ws} (zq {gz(size)}) {gnat(n)}")
         shape_ok = "true" if o["vals_shape"] == [n] and o["weights_shape"] == [n] and o["subs_shape"] == [n, len(shp)] else "false"
+        if c.op == "uniform":
+            return (f"zmat_eqb (zuniform_subs {gnlist(shp)} {gzmat(o['draws'])}) {gzmat(o['subs'])} && "
+                    f"vec_eqb (zuniform_vals {X} {gzmat(o['draws'])}) {gzlist(o['vals'])} && "
+                    f"weights_close {ws} (zq {gz(size)}) {gnat(n)} && {shape_ok}")
         return (f"sample_ok_dense {X} {gzmat(o['subs'])} {gzlist(o['vals'])} {gnat(len(o['weights']))} && {shape_ok} && "
                 f"total_close {ws} (zq {gz(size)})")
     if c.op in ("stratified", "stratified_prop", "semistrat", "semistrat_prop"):
@@ -177,6 +203,7 @@ def coq_check(c, o):
         semi = c.op.startswith("semi")
         wn, wz = o["weights"][:cn], o["weights"][cn:]
         zero_total = size if semi else size - nnz
+        short = bool(c.meta.get("short"))          # trigger region of the open finding C13-S1
         if c.op in ("stratified", "semistrat"):
             nidx, draws = gnlist(o["nidx"]), gzmat(o["draws"])
             got = len(o["subs"]) - cn          # zero subscripts actually returned
@@ -186,25 +213,34 @@ def coq_check(c, o):
             if semi:
                 subs = f"zsemi_subs {S} {nidx} {draws}"
                 vals = f"zsemi_vals {S} {nidx} {draws}"
-                fsubs, fvals = f"fx_semi_subs {S} {nidx} {draws}", vals
+                wchk += " && " + ("true" if len(wz) == cz else "false")
                 if cz > 0:
                     wchk += f" && weights_close {_gqlist(wz)} (zq {gz(zero_total)}) {gnat(cz)}"
-            else:
-                subs = f"zstrat_subs {S} (znzidx {S}) {nidx} {draws} {gnat(cz)}"
-                vals = f"zstrat_vals {S} {nidx} {gnat(cz)}"
-                fsubs = f"fx_strat_subs {S} (znzidx {S}) {nidx} {draws} {gnat(cz)}"
-                fvals = f"fx_strat_vals {S} (znzidx {S}) {nidx} {draws} {gnat(cz)}"
-                if cz > 0 and len(wz) == cz:
+                return f"zmat_eqb ({subs}) {gzmat(o['subs'])} && vec_eqb ({vals}) {gzlist(o['vals'])} && {wchk}"
+            subs = f"zstrat_subs {S} (znzidx {S}) {nidx} {draws} {gnat(cz)}"
+            vals = f"zstrat_vals {S} {nidx} {gnat(cz)}"
+            if len(wz) == cz:
+                if cz > 0:
                     wchk += f" && weights_close {_gqlist(wz)} (zq {gz(zero_total)}) {gnat(cz)}"
-                elif len(wz) == got and got > 0:      # repaired: sized by what was obtained
-                    wchk += f" && weights_close {_gqlist(wz)} (zq {gz(zero_total)}) {gnat(got)}"
-                elif len(wz) != got:
-                    wchk = "false"
-            return (f"((zmat_eqb ({subs}) {gzmat(o['subs'])} && vec_eqb ({vals}) {gzlist(o['vals'])}) || "
-                    f"(zmat_eqb ({fsubs}) {gzmat(o['subs'])} && vec_eqb ({fvals}) {gzlist(o['vals'])})) && {wchk}")
+                faithful = f"(vec_eqb ({vals}) {gzlist(o['vals'])} && {wchk})"
+            else:
+                faithful = "false"
+            both = f"zmat_eqb ({subs}) {gzmat(o['subs'])} && "
+            if not short:
+                return both + faithful
+            # short zero supply (C13-S1, open): the repaired sampler sizes values and weights by what was obtained
+            rchk = "true" if len(wz) == got else "false"
+            if cn > 0:
+                rchk += f" && weights_close {_gqlist(wn)} (zq {gz(nnz)}) {gnat(cn)}"
+            if got > 0 and len(wz) == got:
+                rchk += f" && weights_close {_gqlist(wz)} (zq {gz(zero_total)}) {gnat(got)}"
+            fvals = f"zstrat_vals_fixed {S} (znzidx {S}) {nidx} {draws} {gnat(cz)}"
+            return both + f"({faithful} || (vec_eqb ({fvals}) {gzlist(o['vals'])} && {rchk}))"
         nw = len(o["weights"])
         ntot = len(o["subs"])
         shape_ok = "true" if o["vals_shape"] == [ntot] and o["weights_shape"] == [ntot] else "false"
+        if not short:          # the requested counts are delivered
+            shape_ok += " && " + ("true" if ntot == cn + cz else "false")
         tot = "true"
         if cn > 0:
             tot += f" && total_close {_gqlist(wn)} (zq {gz(nnz)})"
@@ -221,7 +257,8 @@ def coq_check(c, o):
         bounds = "true" if (o["lb_ok"] or 0 in o["ret_cands"]) else "false"
         return (f"zsolve_ok {gzlist(ests)} {gnat(a['max_fails'])} {gopt(tol, gz)} {gnat(a['max_iters'])} {gnlist(o['ret_cands'])} "
                 f"{gnat(len(o['ests']) - 1)} {gnat(o['nfails'])} {gnat(o['n_epoch'])} && "
-                f"(vec_eqb (zreported_trace {gzlist(ests)} {s}) {gzlist(trace)} || vec_eqb (zfull_trace {gzlist(ests)} {s}) {gzlist(trace)}) && "
+                f"vec_eqb (zreported_trace {gzlist(ests)} {gnat(a['max_iters'])} {s}) {gzlist(trace)} && "
+                f"{'true' if o['step_trace_len'] == len(trace) and o['init_unchanged'] else 'false'} && "
                 f"{bounds} && {'true' if o['boundary_lb_ok'] else 'false'}")
     if c.op == "lbfgsb":
         vals = [o["f0"]] + [r[k] for r in o["outs"] for k in ("final_f", "f_end")]
@@ -231,7 +268,7 @@ def coq_check(c, o):
         same = o["outs"][0]["flat"] == o["outs"][1]["flat"]
         return (f"forallb (fun v => Z.leb v {gz(f0)}) {gzlist(rest)} && {'true' if ok else 'false'} && "
                 f"{'true' if same else 'false'} && {'true' if o['callback_restored'] else 'false'} && "
-                f"{'false' if o['callback_called'] is False else 'true'}")
+                f"{'false' if o['callback_called'] is False else 'true'} && {'true' if o['wrap_ok'] else 'false'}")
     if c.op == "reuse":
         if any("exc" in r for r in o["reused"] + o["fresh"]):
             return "false"
@@ -252,19 +289,9 @@ def oracle(c, o):
 
 
 # ----------------------------------------------------------------------------------------- findings
-def _zero_draw(c):
-    return bool(c.meta.get("zero_draw"))
-
-
-TRIGGERS = {
-    "trace_after_an_epoch": lambda c: c.op == "solve_trace" and c.args["max_iters"] >= 1,
-    "stateful_optimizer_reused": lambda c: c.op == "reuse" and c.args["opt"] in ("adam", "adagrad"),
-    "single_sample": lambda c: (c.op == "uniform_prop" and c.args["n"] == 1) or
-                               (c.op == "stratified_prop" and c.meta.get("total") == 1 and bool(c.args["subs"])),
-    "draw_is_zero": lambda c: c.op.split("_")[0] in ("uniform", "stratified", "semistrat") and _zero_draw(c),
+TRIGGERS = {      # only the OPEN findings (A-47, C13-S1, C13-S3); the repaired ones are regression cases in gen_cases
     "sptensor_without_nonzeros": lambda c: c.op.split("_")[0] in ("stratified", "semistrat") and not c.args["subs"] and c.args["cn"] == 0,
     "semistrat_zero_hits_nonzero": lambda c: c.op == "semistrat_prop" and bool(c.meta.get("semi_hit")),
     "zero_supply_short": lambda c: c.op in ("stratified", "stratified_prop", "solve", "solve_trace") and bool(c.meta.get("short")),
-    "semistrat_no_requested_nonzeros": lambda c: c.op in ("semistrat", "semistrat_prop") and c.args["cn"] == 0 and bool(c.args["subs"]),
 }
 WITNESSES = U.WITNESSES
